@@ -12,8 +12,11 @@ import (
 	"encoding/json"
 	"fmt"
 	"os"
+	goruntime "runtime"
+	"runtime/debug"
 	"strings"
 	"testing"
+	"time"
 )
 
 type c07In struct {
@@ -50,6 +53,18 @@ type c07In struct {
 	FirstStatus int    `json:"firstStatus"`
 	FirstBody   []byte `json:"firstBody"`
 
+	// Slow: the exchange goes through the package's real runtime (runtime.startServer: its
+	// http.Server and timeouts) configured with keepAliveTimeout KeepAliveMS; the client sends
+	// the body in Pieces pieces, one every PieceMS ms - never idle, but longer in total than
+	// the keep-alive timeout.
+	Slow        bool `json:"slow"`
+	KeepAliveMS int  `json:"keepAliveMS"`
+	Pieces      int  `json:"pieces"`
+	PieceMS     int  `json:"pieceMS"`
+
+	// RespFill > 0: the response body is RespFill bytes 'z' (pool histories: > 1 MiB)
+	RespFill int `json:"respFill"`
+
 	// Method "" = POST; "GET" = a body-less GET of the same resource (cacheable).
 	// CacheMax > 0: the pool has a memoryCache (GET, code 200, expiration 1h) with that
 	// maxEntryBytes.  In a reload history a change of Pool / Proxy / CacheMax between two
@@ -72,6 +87,9 @@ type c07In struct {
 // from the previous step's the mux is reloaded with the new HTTPServer spec (same rules,
 // only the limits change).  Pool / proxy limits and compression are those of step 0.
 type c07ReloadIn struct {
+	// Pin: the history runs on ONE processor with the garbage collector off, so that
+	// process-wide free lists (sync.Pool) hand the same object from one step to the next.
+	Pin   bool    `json:"pin"`
 	Steps []c07In `json:"steps"`
 }
 
@@ -161,6 +179,9 @@ func c07Bodies(in *c07In) (reqBody, respBody []byte) {
 	}
 	if in.RespBig > 0 {
 		respBody = c07BigBody(in.RespBig, 2)
+	}
+	if in.RespFill > 0 {
+		respBody = bytes.Repeat([]byte{'z'}, in.RespFill)
 	}
 	return
 }
@@ -270,6 +291,9 @@ func c07Run(in c07In) (obs c07Obs) {
 	}()
 	be := c07StartBackend(c07Script(&in))
 	defer be.Close()
+	if in.Slow {
+		return c07RunSlow(be, &in)
+	}
 	if in.Retry {
 		first := fmt.Sprintf("HTTP/1.1 %d First\r\nContent-Type: text/plain\r\nContent-Length: %d\r\n\r\n%s", in.FirstStatus, len(in.FirstBody), in.FirstBody)
 		be.SetRawSeq([][]byte{[]byte(first), c07Script(&in)})
@@ -291,6 +315,50 @@ func c07Run(in c07In) (obs c07Obs) {
 	return
 }
 
+// c07RunSlow: one exchange through the real runtime with a steady but slow upload.
+func c07RunSlow(be *c07Backend, in *c07In) (obs c07Obs) {
+	fr := c07StartRuntime(c07ServerYAML(in.Srv, in.Path), c07PipelineYAMLFor(be.Addr(), in), in.KeepAliveMS)
+	defer fr.Close()
+	body := in.ReqBody
+	n := in.Pieces
+	if n < 1 {
+		n = 1
+	}
+	var head bytes.Buffer
+	head.WriteString("POST /c07/x HTTP/1.1\r\nHost: front.test\r\nContent-Type: application/octet-stream\r\n")
+	var pieces [][]byte
+	if in.ReqEnc == "chunked" {
+		head.WriteString("Transfer-Encoding: chunked\r\n\r\n")
+	} else {
+		fmt.Fprintf(&head, "Content-Length: %d\r\n\r\n", len(body))
+	}
+	for k := 0; k < n; k++ {
+		part := body[k*len(body)/n : (k+1)*len(body)/n]
+		if in.ReqEnc == "chunked" {
+			part = c07Chunked(part, len(part), k == n-1)
+		}
+		pieces = append(pieces, part)
+	}
+	r := c07SlowExchange(fr.addr, head.Bytes(), pieces, time.Duration(in.PieceMS)*time.Millisecond)
+	be.Quiesce()
+	seen := be.Seen()
+	obs.Got, obs.Status, obs.FrameOK, obs.Declared = r.Got, r.Status, r.FrameOK, r.Declared
+	obs.Heads = len(seen)
+	obs.Body, obs.BBody, obs.BBody2 = r.Body, []byte{}, []byte{}
+	if obs.Body == nil {
+		obs.Body = []byte{}
+	}
+	for _, s := range seen {
+		if s.Complete {
+			if obs.Complete == 0 {
+				obs.BBody = append([]byte{}, s.Body...)
+			}
+			obs.Complete++
+		}
+	}
+	return
+}
+
 func c07RunReload(h *c07ReloadIn) (obs c07ReloadObs) {
 	defer func() {
 		if r := recover(); r != nil {
@@ -299,6 +367,14 @@ func c07RunReload(h *c07ReloadIn) (obs c07ReloadObs) {
 	}()
 	if len(h.Steps) == 0 {
 		return
+	}
+	if h.Pin {
+		procs := goruntime.GOMAXPROCS(1)
+		gc := debug.SetGCPercent(-1)
+		defer func() {
+			debug.SetGCPercent(gc)
+			goruntime.GOMAXPROCS(procs)
+		}()
 	}
 	first := &h.Steps[0]
 	be := c07StartBackend(nil)
@@ -647,6 +723,51 @@ func c07GenReloadCache(r *vfRand, adv bool) (h c07ReloadIn) {
 	return
 }
 
+// c07GenSlow: a body within the limit uploaded steadily but for 2-3 times the server's
+// keepAliveTimeout (which is about idle connections only).
+func c07GenSlow(r *vfRand) (in c07In) {
+	in.Slow, in.KeepAliveMS, in.PieceMS = true, r.PickInt(20, 30, 50), 5
+	in.Pieces = in.KeepAliveMS * r.PickInt(2, 3) / in.PieceMS
+	if in.Pieces*in.PieceMS > 150 {
+		in.Pieces = 150 / in.PieceMS
+	}
+	in.Srv = int64(r.PickInt(0, 1000, -1, -1))
+	n := in.Pieces * r.PickInt(1, 3, 20)
+	in.ReqBody = c07Bytes(r, n)
+	if r.Bool() {
+		in.ReqEnc, in.ReqDecl = "cl", n
+	} else {
+		in.ReqEnc, in.ReqTerm = "chunked", true
+	}
+	in.RespStatus, in.RespEnc, in.RespDecl, in.RespBody = 200, "cl", 2, []byte("ok")
+	return
+}
+
+// c07GenPool: one response of unknown length beyond 1 MiB - withheld (limit 1.1 MB) or
+// delivered (4 MB default) - followed by small responses of unknown length through the same
+// process on the same processor: nothing of an earlier body may show up in a later one.
+func c07GenPool(r *vfRand, variant int) (h c07ReloadIn) {
+	h.Pin = true
+	pool := int64(1100000)
+	if variant%2 == 1 {
+		pool = 0
+	}
+	mk := func(fill int, body []byte, enc string) {
+		var in c07In
+		in.Pool = pool
+		in.ReqEnc, in.ReqDecl, in.ReqBody = "cl", 1, []byte("x")
+		in.RespStatus, in.RespEnc, in.RespChunk, in.RespTerm = 200, enc, 65536, true
+		in.RespFill, in.RespBody, in.RespDecl = fill, body, len(body)
+		h.Steps = append(h.Steps, in)
+	}
+	mk(1300000, nil, "chunked")
+	for k := 0; k < 3; k++ {
+		mk(0, c07Bytes(r, r.PickInt(10, 60, 200)), r.PickStr("chunked", "chunked", "close"))
+	}
+	mk(0, c07Bytes(r, 40), "cl")
+	return
+}
+
 func c07GenBig(r *vfRand, k int) (in c07In) {
 	const def = 4 * 1024 * 1024
 	in.RespStatus, in.RespEnc, in.ReqEnc = 200, "cl", "cl"
@@ -699,6 +820,11 @@ func TestVerifC07(t *testing.T) {
 	}
 	n := vfN(300)
 	for i := 0; i < n; i++ {
+		if i%200 == 20 {
+			h := c07GenPool(root.Fork(i), i/200)
+			out.Emit(vfCase{ID: fmt.Sprintf("%s-pool-%d", src, i), Src: src, Grp: "reload", In: h, Obs: c07RunReload(&h)})
+			continue
+		}
 		if i%8 == 5 {
 			h := c07GenReload(root.Fork(i), adv)
 			if (i/8)%2 == 1 {
@@ -714,6 +840,8 @@ func TestVerifC07(t *testing.T) {
 			in = c07GenRetry(root.Fork(i))
 		} else if i%10 == 4 {
 			in = c07GenMirror(root.Fork(i))
+		} else if i%90 == 41 {
+			in = c07GenSlow(root.Fork(i))
 		}
 		out.Emit(vfCase{ID: fmt.Sprintf("%s-body-%d", src, i), Src: src, Grp: "body", In: in, Obs: c07Run(in)})
 	}
